@@ -101,6 +101,32 @@ def run(tier, seed):
                     if got:
                         ck.violation(f'{ps} matched {len(got)} element(s) of a document that is XML but not XHTML',
                                      {'pattern': ps, 'markup': str(top)[:2000], 'observed': [str(e)[:80] for e in got[:5]]})
+    # filter() over a list that mixes elements of documents of different kinds (parentless ones included): the case rules are
+    # those of the document each element came from, whatever stands next to it in the list
+    from bs4 import BeautifulSoup as _BS
+    for _ in range(12 if tier == 'quick' else 200):
+        hdoc = _BS('<div><p data-k="v" type="text" class="C">h</p><P2 Data-K="v">x</P2></div>', rnd.choice(['html.parser', 'lxml', 'html5lib']))
+        xdoc = _BS('<?xml version="1.0"?><r><P Data-K="v" type="TEXT" class="C">x</P><p data-k="v" type="text">y</p></r>', 'xml')
+        items = [hdoc.p, xdoc.find('P'), xdoc.find('p'), hdoc.find('p2')]
+        if rnd.random() < 0.7:
+            items = [it.extract() for it in items if it is not None]
+        items = [it for it in items if it is not None]
+        rnd.shuffle(items)
+        for sel_ in ('p', 'P', '[data-k]', '[Data-K]', '[type=text]', '[type=TEXT]', 'p[type="text" s]', '.C', '.c', 'p2', ':not(p)'):
+            try:
+                c_ = sv.compile(sel_)
+                want = [id(x) for x in items if c_.match(x)]
+                got = [id(x) for x in c_.filter(items)]
+                got_r = [id(x) for x in c_.filter(list(reversed(items)))][::-1]
+                got_g = [id(x) for x in c_.filter(x for x in items)]
+            except Exception as ex:
+                ck.violation(f'filter({sel_!r}, [elements of an HTML and an XML document]) raised {type(ex).__name__}', {'pattern': sel_})
+                continue
+            ck.count(('mixed-filter', sel_, len(want)))
+            if not (want == got == got_r == got_g):
+                ck.violation(f'filter({sel_!r}) over a list mixing elements of an HTML and an XML document differs from matching each element on its own',
+                             {'pattern': sel_, 'items': [str(x)[:80] + (' [xml]' if x in (xdoc.find_all(True) or []) else '') for x in items],
+                              'match_each': want, 'filter_list': got, 'filter_reversed': got_r, 'filter_generator': got_g})
     # XML documents (root not XHTML) that embed XHTML-namespace elements: HTML-only pseudo-classes still match nothing
     for sc in campaign.build(rnd, 'ns', n, 0):
         top = sc.top
